@@ -5,8 +5,9 @@
 
   `parse : List Char → Outcome` is `idl.Parse`. Outcomes are explicit:
      ok σ | error pos class | panic site
-  Every Go `panic(...)`/nil dereference reachable from `Parse` is a `panic` outcome: the model
-  describes the code AS WRITTEN (a field without a type makes `computeRecursiveType` panic).
+  Every Go `panic(...)`/nil dereference on the path of `Parse` is a `panic` outcome of the model;
+  `Stef.Props.C12.parse_no_panic` shows that none of them is reachable (since commit a64277c a
+  field without a type is a positioned error; before, it made `computeRecursiveType` panic).
 
   Scope: ASCII input (every `Char` below 128). `unicode.IsLetter/IsDigit/IsSpace` are modelled
   by their ASCII restrictions; inputs with other runes are exercised on the real code only
@@ -261,7 +262,7 @@ inductive ErrClass
   | structName | multimapName | enumName
   | dupTop (n : Name) | dupField (n : Name)
   | oneofDict | oneofRoot | rootEmpty
-  | dictName | arrayType | dictPrim | pkgIdent | enumValue
+  | dictName | arrayType | typeExpected | dictPrim | pkgIdent | enumValue
   | unknownType | ambiguousType    -- from ResolveRefs
   | outOfFuel                      -- model artefact, unreachable
   deriving DecidableEq, Repr, Inhabited
@@ -324,8 +325,9 @@ def dictAllowed (b : BaseType) : Bool :=
   | some .bytes => true
   | some _ => false
 
-/-- `parseFieldType`. A missing type (`default:` branch without `[]`) returns nil and leaves the
-    zero `FieldType` in place: `.base {}`. -/
+/-- `parseFieldType`. A missing type (`default:` branch) is an error, with or without `[]`
+    (since commit a64277c; before, the non-array case returned nil and left the zero `FieldType`
+    in place, which made `computeRecursiveType` panic later). -/
 def parseFieldType (ts : List Token) : PR FType :=
   let isArray := (cur ts).tok = .punct '['
   let r := if isArray then eat (.punct ']') (adv ts) else .ok () ts
@@ -333,7 +335,7 @@ def parseFieldType (ts : List Token) : PR FType :=
   | .err p c => .err p c
   | .ok _ ts =>
     match typeOfTok (cur ts).tok with
-    | none => if isArray then .err (cur ts).pos .arrayType else .ok (.base {}) ts
+    | none => if isArray then .err (cur ts).pos .arrayType else .err (cur ts).pos .typeExpected
     | some ft =>
       let ts := adv ts
       if (cur ts).tok = .kw .dict then
